@@ -348,9 +348,11 @@ impl TryFrom<wasmparser::HeapType> for HeapType {
             wasmparser::HeapType::Abstract { shared: true, ty } => {
                 anyhow::bail!("shared heap types are not supported: {ty:?}")
             }
-            wasmparser::HeapType::Concrete(index) => {
-                Self::Concrete(index.as_module_index().unwrap())
-            }
+            wasmparser::HeapType::Concrete(index) => match index.as_module_index() {
+                Some(index) => Self::Concrete(index),
+                // After validation the index refers to a canonicalized type
+                None => anyhow::bail!("concrete heap types are not yet supported: {index:?}"),
+            },
             wasmparser::HeapType::Exact(_) => {
                 anyhow::bail!("exact heap types are not yet supported")
             }
